@@ -369,6 +369,21 @@ func c12Seq(n int) []int {
 var c12FullDims = c12Dims{c12Seq(3), c12Seq(3), c12Seq(3), c12Seq(5), c12Seq(8), c12Seq(6), c12Seq(3)}
 var c12SignerDims = c12Dims{[]int{0, 1}, []int{0, 1, 2}, []int{0, 2}, []int{0, 4}, []int{0, 1, 2}, []int{0, 3}, []int{0, 1}}
 
+// thorough tier: nearly the full product on every signer configuration (no other-kind artefacts)
+var c12SignerDimsThorough = c12Dims{c12Seq(3), c12Seq(3), c12Seq(3), c12Seq(5), c12Seq(8), []int{0, 1, 2, 3}, c12Seq(3)}
+
+func (d c12Dims) coq() string {
+	l := func(v []int) string {
+		var p []string
+		for _, e := range v {
+			p = append(p, fmt.Sprint(e))
+		}
+		return "[" + strings.Join(p, "; ") + "]%nat"
+	}
+	return fmt.Sprintf("{| d_cl := %s; d_sm := %s; d_vm := %s; d_ck := %s; d_rd := %s; d_cs := %s; d_loc := %s |}",
+		l(d.cl), l(d.sm), l(d.vm), l(d.ck), l(d.rd), l(d.cs), l(d.loc))
+}
+
 func (d c12Dims) size() int {
 	return len(d.cl) * len(d.sm) * len(d.vm) * len(d.ck) * len(d.rd) * len(d.cs) * len(d.loc)
 }
@@ -906,6 +921,10 @@ func TestVerif_C12(t *testing.T) {
 		{name: "P-384", signer: ecKey(elliptic.P384()), ed: edKey(), file: []crypto.PublicKey{sibling.Public()}, sibling: sibling},
 		{name: "P-521", signer: ecKey(elliptic.P521()), ed: edKey()},
 	}
+	signerDims := c12SignerDims
+	if verifThorough() {
+		signerDims = c12SignerDimsThorough
+	}
 	var siteRuns []*siteRun
 	var signerIndex []string
 	for n, sp := range specs {
@@ -917,9 +936,9 @@ func TestVerif_C12(t *testing.T) {
 			issuer: senv.state.idpGetIssuer(), sid: senv.signerKeyID(), sibling: sp.sibling}
 		s.fetchDiscovery(t)
 		sr := &siteRun{site: s}
-		sr.codes = x.buildCodes(s, c12SignerDims, nil)
+		sr.codes = x.buildCodes(s, signerDims, nil)
 		var ix []string
-		sr.observed, sr.rel, sr.t0, sr.t1, ix = x.runProduct(s, c12SignerDims, sr.codes)
+		sr.observed, sr.rel, sr.t0, sr.t1, ix = x.runProduct(s, signerDims, sr.codes)
 		signerIndex = append(signerIndex, ix...)
 		released := map[string]bool{}
 		for _, r := range sr.rel {
@@ -1286,15 +1305,20 @@ func TestVerif_C12(t *testing.T) {
 	var keyIndex, signerRelIndex, signerAuthzIndex []string
 	keyIndex = append(keyIndex, "signer configuration "+main.name)
 	relOff, authzOff := 0, 0
+	// the sub-product that was run on the signer configurations (quick: OIDCEnum.signer_dims)
+	sb.WriteString("Definition signer_dims_run : dims := " + signerDims.coq() + ".\nDefinition signer_combos_run := Eval vm_compute in combos_of signer_dims_run.\n")
+	if !verifThorough() {
+		sb.WriteString("Definition c12_signer_dims_ok : signer_dims_run = signer_dims := eq_refl.\n")
+	}
 	for n, sr := range siteRuns {
 		s := sr.site
 		sb.WriteString("Definition c12_idp" + s.suffix + " : idp :=\n  " + s.env.coqIdp() + ".\n")
 		sb.WriteString(s.coqEnv(sr.codes))
 		sb.WriteString("Definition observed" + s.suffix + " : bs := " + coqPacked(sr.observed) + ".\n")
-		prodParts = append(prodParts, fmt.Sprintf("map (Nat.add %d) (product_mismatches_on signer_combos c12_idp%s c12_env%s (%d)%%Z (%d)%%Z observed%s)",
-			n*c12SignerDims.size(), s.suffix, s.suffix, sr.t0, sr.t1, s.suffix))
+		prodParts = append(prodParts, fmt.Sprintf("map (Nat.add %d) (product_mismatches_on signer_combos_run c12_idp%s c12_env%s (%d)%%Z (%d)%%Z observed%s)",
+			n*signerDims.size(), s.suffix, s.suffix, sr.t0, sr.t1, s.suffix))
 		sb.WriteString(s.coqReleased("released_cases"+s.suffix, sr.rel))
-		relParts = append(relParts, fmt.Sprintf("map (Nat.add %d) (mismatches (release_bad_on signer_combos c12_idp%s c12_env%s (%d)%%Z (%d)%%Z) released_cases%s)",
+		relParts = append(relParts, fmt.Sprintf("map (Nat.add %d) (mismatches (release_bad_on signer_combos_run c12_idp%s c12_env%s (%d)%%Z (%d)%%Z) released_cases%s)",
 			relOff, s.suffix, s.suffix, sr.t0, sr.t1, s.suffix))
 		for _, r := range sr.rel {
 			signerRelIndex = append(signerRelIndex, fmt.Sprintf("%s: released combination %d of the signer sub-product", s.name, r.idx))
